@@ -176,11 +176,26 @@ Definition expected_log (p : prog) : list lsh :=
   ++ flat_map entry_log (cleanup_entries p).
 
 (* ---------- which outcome an exception stands for ---------- *)
-Definition outcome_for (hs : list handler) (e : exc) : option outcome :=
-  match lookup hs e with
-  | Some h => h_out h
-  | None => last_resort
+(* Stated without the handler table of the implementation: the first handler the user inserted
+   whose class the exception is an instance of decides; otherwise SkipTest and its subclasses
+   stand for a skip, AssertionError ... for a failure, the expected-failure and
+   unexpected-success signals for themselves, and everything else for an error. *)
+Definition standard_outcome (c : cls) : outcome :=
+  if subclass c CSkip then OSkip
+  else if subclass c CFail then OFail
+  else if subclass c CXFail then OXFail
+  else if subclass c CUx then OUx
+  else OErr.
+Definition user_claim (p : prog) (e : exc) : option (cls * outcome) :=
+  find (fun co => isinstance e (fst co)) (p_handlers p).
+Definition outcome_of (p : prog) (e : exc) : outcome :=
+  match user_claim p e with
+  | Some co => snd co
+  | None => standard_outcome (cls_of e)
   end.
+(* some handler is responsible for it: an inserted one, or it derives from Exception *)
+Definition claimed (p : prog) (e : exc) : bool :=
+  match user_claim p e with Some _ => true | None => isinstance e CException end.
 
 (* ---------- well-formed programs (the finite-program and driver conventions) ---------- *)
 Fixpoint wf_exc (e : exc) : bool :=
@@ -210,3 +225,78 @@ Fixpoint wf_act (a : act) : bool :=
 Definition wf_acts (l : list act) : bool := forallb wf_act l.
 Definition wf_prog (p : prog) : bool :=
   wf_acts (snd (p_setup p)) && wf_acts (snd (p_body p)) && wf_acts (snd (p_teardown p)).
+
+(* ------------------------------------------------------------------ *)
+(* what happens to details and addOnException handlers, in order (C05)  *)
+(* ------------------------------------------------------------------ *)
+Inductive devent :=
+| DUser (n : dname) (loc : nat)      (* addDetail(n, content reading cell loc) by the test *)
+| DSetCell (loc v : nat)             (* the cell changes *)
+| DMis (n : dname) (loc : nat)       (* a detail of a mismatch is attached *)
+| DStack                             (* expectThat attaches its "Failed expectation" *)
+| DFx (n : dname) (loc : nat)        (* a detail of a fixture is gathered: its bytes are taken now *)
+| DTb                                (* the traceback of the assertion behind an expected failure *)
+| DReason (r : option nat)           (* the reason of an expectFailure *)
+| DOnExc (h : nat)                   (* addOnException(h) *)
+| DExc (c : cls).                    (* an exception of class c raised by user code is caught *)
+
+(* a fixture's details as its getDetails() returns them: a later addDetail under the same
+   name replaces the earlier *)
+Fixpoint fx_put (n : dname) (loc : nat) (l : list (dname * nat)) : list (dname * nat) :=
+  match l with
+  | [] => [(n, loc)]
+  | (m, x) :: r => if dname_eqb n m then (m, loc) :: r else (m, x) :: fx_put n loc r
+  end.
+Definition fx_dict (fx : fixture) : list (dname * nat) :=
+  fold_left (fun d nl => fx_put (fst nl) (snd nl) d) (fx_details fx) [].
+Definition fx_events (fx : fixture) : list devent := map (fun nl => DFx (fst nl) (snd nl)) (fx_dict fx).
+
+Definition act_events (a : act) : list devent :=
+  match a with
+  | ADetail n loc => [DUser n loc]
+  | ASetCell loc v => [DSetCell loc v]
+  | AExpect mm => map (fun nl => DMis (fst nl) (snd nl)) mm ++ [DStack]
+  | AAssert mm => map (fun nl => DMis (fst nl) (snd nl)) mm
+  | AFixture fx => match fx_fail fx with Some _ => fx_events fx | None => [] end   (* gathered at once when set-up fails *)
+  | AOnExc h => [DOnExc h]
+  | AExpectFailure r (Some e) => DReason (Some r) :: if isinstance e CFail then [DTb] else []
+  | AExpectFailure r None => [DReason (Some r)]
+  | _ => []
+  end.
+(* each constituent exception, in order *)
+Definition exc_events (r : option exc) : list devent := map (fun x => DExc (cls_of x)) (caught r).
+Definition acts_events (l : list act) : list devent := flat_map act_events (executed l).
+Definition entry_events (e : entry) : list devent :=
+  match e with
+  | EUser _ body => acts_events body ++ exc_events (acts_raise body)
+  | ERestore _ => []
+  | EGather fx => fx_events fx
+  | EFx fx => exc_events (fx_cleanup_raise (fx_cleanups fx))
+  end.
+(* the test method, through the @unittest.expectedFailure wrapper if decorated *)
+Definition body_events (p : prog) : list devent :=
+  acts_events (snd (p_body p))
+  ++ (if p_xfail p then match acts_raise (snd (p_body p)) with
+                        | Some e => if isinstance e CException then [DTb] else []
+                        | None => []
+                        end else [])
+  ++ exc_events (body_raise p).
+
+Definition events (p : prog) : list devent :=
+  if skipped p then [] else
+  acts_events (snd (p_setup p)) ++ exc_events (setup_raise p)
+  ++ (if setup_returns p
+      then body_events p ++ acts_events (snd (p_teardown p)) ++ exc_events (teardown_raise p)
+      else [])
+  ++ flat_map entry_events (cleanup_entries p)
+  ++ exc_events (match forced_failure p with e :: _ => Some e | [] => None end).
+
+(* the exception the outcome is reported for: the first one nobody is responsible for, else the last *)
+Definition reported (p : prog) : option exc :=
+  match raised p with
+  | [] => None
+  | l => match find (fun e => negb (claimed p e)) l with
+         | Some e => Some e
+         | None => Some (last l (Exc CFail None))
+         end
+  end.
